@@ -1,4 +1,5 @@
 from .common import *
+from . import c08
 
 def run(tier):
     r = Run('C06', tier)
@@ -6,6 +7,9 @@ def run(tier):
     # L1/L4/L6/L7 live in the gate harness: acceptance iff tag == HMAC(key, body) for the key PASSED IN; rejecting => no write, no pipeline;
     # first hashed block == (key||0^48)^ipad (all 128 key bits reach the MAC); cipher streams keyed with the same key
     gate_obligations(r, tier, lens, ops=('decrypt', 'verify'))
+    # the full-length tag comparison itself (shared with C08): accepts iff every tag byte matches, for all tag fields; replayable on the real hash
+    for ht_ in (0, 1, 2):
+        c08.cmp_obligations(r, tier, ht_, prefix='tag-')
     r.bounds = ['files of length %s; all contents, all (key, key\') pairs: the file\'s tag is arbitrary, in particular any tag computed under another key' % lens]
     r.outside = ['A-KEY (cryptographic): HMAC(k\',m) != HMAC(k,m) for k\' != k - not a solver claim; what the solver decides is that acceptance depends on the supplied key only through the full-length tag comparison, that all 16 key bytes enter the MAC, and that rejection writes nothing']
     r.assumptions = ['A-KEY', 'A-MAC', 'compression functions uninterpreted (C07)']
@@ -13,4 +17,4 @@ def run(tier):
     return r.finish()
 
 def replay(rp):
-    return generic_replay(rp, {'kern_gate': U_kern, 'kern': U_kern})
+    return generic_replay(rp, {'kern_gate': U_kern, 'kern_ufh': U_kern, 'kern': U_kern})
